@@ -19,6 +19,11 @@
 (*   lib.classes[c] = [file, key, region, ns, outer, at, bases, members]   *)
 (*   member         = [k, lab, rc, ri, sig]                                *)
 (*   lib.tops[t]    = [k, file, region, ns, rc, sig]                       *)
+(*   lib.aliases[a] = [scope, at, file, form, wrap, tt, tc]  typedef/using *)
+(*                    alias of class tc (tt = "cls") or of alias tc (tt =  *)
+(*                    "alias"), the named type wrapped as `wrap`; declared *)
+(*                    at namespace scope (scope = 0) or as member `at` of  *)
+(*                    class `scope`                                        *)
 (*   lib.order      = namespace-scope items in declaration order           *)
 (*   lib.minvis, lib.cmd = the configuration                               *)
 (***************************************************************************)
@@ -37,6 +42,8 @@ CONSTANTS
   TopAlpha,      \* namespace-scope (non-class) declaration records
   MaxTops,
   ClassComments, \* comment styles a namespace-scope class may carry
+  AliasAlpha,    \* set of <<form, wrap>>: form \in {"typedef","using"}, wrap \in {"plain","ptr","cptr","cref","rref"}
+  MaxAliases,
   CmdKinds       \* subset of {"ignoremember","ignoretype","ignoreinvolved","ignorefile","forcetype"}
 
 VARIABLES lib, cur, done
@@ -47,12 +54,17 @@ Labels == {"same", "published", "public", "protected", "private"}
 
 NoSig == [role |-> "meth", ret |-> [b |-> "void", m |-> "val", c |-> 0], ps |-> <<>>]
 \* cm: the documentation comment written on the line before the declaration ("" | "//" | "/*")
-Mem(k, lab) == [k |-> k, lab |-> lab, rc |-> 0, ri |-> 0, sig |-> NoSig, cm |-> ""]
-Top(k, region, ns) == [k |-> k, file |-> 1, region |-> region, ns |-> ns, rc |-> 0, ri |-> 0, sig |-> NoSig, cm |-> ""]
+\* ra: the alias a signature names its type through (0 = none), uw: how the alias is used ("ptr" | "cref" | "val")
+\* nm: the declared name when it is not the entity's unique marker (an operator, an overloaded name)
+Mem(k, lab) == [k |-> k, lab |-> lab, rc |-> 0, ri |-> 0, ra |-> 0, uw |-> "", nm |-> "", sig |-> NoSig, cm |-> ""]
+Top(k, region, ns) == [k |-> k, file |-> 1, region |-> region, ns |-> ns, rc |-> 0, ri |-> 0, ra |-> 0, uw |-> "",
+                       sig |-> NoSig, cm |-> ""]
 NoCmd == [c |-> "none", k |-> 0, i |-> 0]
 
 NC == Len(lib.classes)
 NT == Len(lib.tops)
+NA == Len(lib.aliases)
+Ali(a) == lib.aliases[a]
 Cls(c) == lib.classes[c]
 Mbr(c, i) == lib.classes[c].members[i]
 NM(c) == Len(lib.classes[c].members)
@@ -85,7 +97,7 @@ Depth(c) == IF Cls(c).outer = 0 THEN 1 ELSE 2
 (* Construction of the library, one declaration per step.                  *)
 
 Init ==
-  /\ lib = [files |-> <<[src |-> "cmd"]>>, classes |-> <<>>, tops |-> <<>>, order |-> <<>>,
+  /\ lib = [files |-> <<[src |-> "cmd"]>>, classes |-> <<>>, tops |-> <<>>, aliases |-> <<>>, order |-> <<>>,
             minvis |-> "published", cmd |-> NoCmd]
   /\ cur = 0
   /\ done = FALSE
@@ -93,7 +105,8 @@ Init ==
 NF == Len(lib.files)
 \* the second file is #included at the top of file 1 (or parsed first): its declarations come first
 File1Started == \E k \in 1..Len(lib.order) :
-                   LET o == lib.order[k] IN IF o.t = "c" THEN Cls(o.id).file = 1 ELSE lib.tops[o.id].file = 1
+                   LET o == lib.order[k] IN IF o.t = "c" THEN Cls(o.id).file = 1
+                                            ELSE IF o.t = "a" THEN Ali(o.id).file = 1 ELSE lib.tops[o.id].file = 1
 FileChoices == IF NF = 2 /\ ~File1Started THEN {1, 2} ELSE {1}
 
 AddFile ==
@@ -106,6 +119,16 @@ ClassRefs(c) == {r \in 1..NC : r # c /\ (c = 0 \/ r # Cls(c).outer)}
 EnumRefs(c) == IF c = 0 THEN {} ELSE {i \in 1..NM(c) : Mbr(c, i).k = "enum"}
 NeedsRef(k) == k \in {"usep", "user", "datap", "usef", "tdefc"}
 NeedsEnum(k) == k \in {"usee"}
+NeedsAlias(k) == k \in {"usea", "reta", "usefa"}
+
+\* ---- aliases: the type an alias finally names, and the wrappers met on the way
+RECURSIVE TargetClass(_), ChainWraps(_)
+TargetClass(a) == IF Ali(a).tt = "cls" THEN Ali(a).tc ELSE TargetClass(Ali(a).tc)
+ChainWraps(a) == (IF Ali(a).wrap = "plain" THEN {} ELSE {Ali(a).wrap})
+                 \cup (IF Ali(a).tt = "cls" THEN {} ELSE ChainWraps(Ali(a).tc))
+AliasVis(a) == IF Ali(a).scope = 0 THEN "public" ELSE VisAt(Ali(a).scope, Ali(a).at)
+\* aliases a declaration in class c (0 = namespace scope) may name: declared before it, and accessible
+AliasRefs(c) == {a \in 1..NA : Ali(a).scope = 0 \/ Ali(a).scope = c \/ Rank(AliasVis(a)) <= 1}
 
 BaseOf(b, a) == [c |-> b, acc |-> a[1], virt |-> a[2]]
 BaseCands == {x \in 1..NC : Cls(x).outer = 0}
@@ -130,8 +153,10 @@ AddClass ==
 AddMember ==
   /\ ~done /\ cur # 0 /\ NM(cur) < MaxMembers[Depth(cur)]
   /\ \E m \in MemberAlpha[Depth(cur)] :
-       \/ /\ ~NeedsRef(m.k) /\ ~NeedsEnum(m.k)
+       \/ /\ ~NeedsRef(m.k) /\ ~NeedsEnum(m.k) /\ ~NeedsAlias(m.k)
           /\ lib' = [lib EXCEPT !.classes[cur].members = Append(@, m)]
+       \/ /\ NeedsAlias(m.k)
+          /\ \E a \in AliasRefs(cur) : lib' = [lib EXCEPT !.classes[cur].members = Append(@, [m EXCEPT !.ra = a])]
        \/ /\ NeedsRef(m.k)
           /\ \E r \in ClassRefs(cur) : lib' = [lib EXCEPT !.classes[cur].members = Append(@, [m EXCEPT !.rc = r])]
        \/ /\ NeedsEnum(m.k)
@@ -157,12 +182,33 @@ CloseClass ==
 AddTop ==
   /\ ~done /\ cur = 0 /\ NT < MaxTops
   /\ \E d \in TopAlpha : \E f \in FileChoices :
-       \/ /\ ~NeedsRef(d.k)
+       \/ /\ ~NeedsRef(d.k) /\ ~NeedsAlias(d.k)
           /\ lib' = [lib EXCEPT !.tops = Append(@, [d EXCEPT !.file = f]), !.order = Append(@, [t |-> "t", id |-> NT + 1])]
+       \/ /\ NeedsAlias(d.k)
+          /\ \E a \in AliasRefs(0) :
+               lib' = [lib EXCEPT !.tops = Append(@, [d EXCEPT !.file = f, !.ra = a]),
+                                  !.order = Append(@, [t |-> "t", id |-> NT + 1])]
        \/ /\ NeedsRef(d.k)
           /\ \E r \in ClassRefs(0) :
                lib' = [lib EXCEPT !.tops = Append(@, [d EXCEPT !.file = f, !.rc = r]),
                                   !.order = Append(@, [t |-> "t", id |-> NT + 1])]
+  /\ UNCHANGED <<cur, done>>
+
+\* a typedef / using alias of a complete class or of an earlier alias, at namespace scope or as a class member
+AliasTargets(c) == {[tt |-> "cls", tc |-> r] : r \in ClassRefs(c)} \cup {[tt |-> "alias", tc |-> a] : a \in AliasRefs(c)}
+AddAlias ==
+  /\ ~done /\ NA < MaxAliases
+  /\ \E fw \in AliasAlpha : \E tg \in AliasTargets(cur) :
+       \/ /\ cur = 0
+          /\ \E f \in FileChoices :
+               lib' = [lib EXCEPT !.aliases = Append(@, [scope |-> 0, at |-> 0, file |-> f, form |-> fw[1], wrap |-> fw[2],
+                                                          tt |-> tg.tt, tc |-> tg.tc]),
+                                  !.order = Append(@, [t |-> "a", id |-> NA + 1])]
+       \/ /\ cur # 0 /\ Depth(cur) = 1 /\ NM(cur) < MaxMembers[1]
+          /\ \E l \in Labels :
+               lib' = [lib EXCEPT !.aliases = Append(@, [scope |-> cur, at |-> NM(cur) + 1, file |-> Cls(cur).file,
+                                                          form |-> fw[1], wrap |-> fw[2], tt |-> tg.tt, tc |-> tg.tc]),
+                                  !.classes[cur].members = Append(@, [Mem("alias", l) EXCEPT !.ra = NA + 1])]
   /\ UNCHANGED <<cur, done>>
 
 \* the .N command (at most one: the commands are independent filters)
@@ -181,7 +227,7 @@ Finish ==
   /\ done' = TRUE
   /\ UNCHANGED cur
 
-BuildNext == AddFile \/ AddClass \/ AddMember \/ AddNested \/ CloseClass \/ AddTop \/ Finish
+BuildNext == AddFile \/ AddClass \/ AddMember \/ AddNested \/ CloseClass \/ AddTop \/ AddAlias \/ Finish
 
 ---------------------------------------------------------------------------
 (* Facts of an entity that the database must describe truthfully (C05).    *)
@@ -250,6 +296,9 @@ OneOwner ==
               /\ {<<o, i>> \in UNION {{<<o2, i2>> : i2 \in 1..NM(o2)} : o2 \in 1..NC} :
                      Mbr(o, i).k = "nclass" /\ Mbr(o, i).rc = c} = {<<Cls(c).outer, Cls(c).at>>}
   /\ \A t \in 1..NT : Cardinality({k \in 1..Len(lib.order) : lib.order[k] = [t |-> "t", id |-> t]}) = 1
+  /\ \A a \in 1..NA :
+       IF Ali(a).scope = 0 THEN Cardinality({k \in 1..Len(lib.order) : lib.order[k] = [t |-> "a", id |-> a]}) = 1
+       ELSE Mbr(Ali(a).scope, Ali(a).at).k = "alias" /\ Mbr(Ali(a).scope, Ali(a).at).ra = a
 
 \* a declaration only refers to what is declared before it (so the header is valid C++)
 RefsBackward ==
@@ -259,6 +308,7 @@ RefsBackward ==
          /\ (NeedsEnum(m.k) => m.rc = c /\ m.ri \in 1..(i - 1) /\ Mbr(c, m.ri).k = "enum")
   /\ \A c \in 1..NC : \A b \in 1..Len(Cls(c).bases) : Cls(c).bases[b].c < c
   /\ \A t \in 1..NT : NeedsRef(lib.tops[t].k) => lib.tops[t].rc \in 1..NC
+  /\ \A a \in 1..NA : (Ali(a).tt = "alias" => Ali(a).tc < a) /\ TargetClass(a) \in 1..NC
 
 VisIsFunction == \A c \in 1..NC : \A i \in 0..NM(c) : VisAt(c, i) \in {"published", "public", "protected", "private"}
 =============================================================================
